@@ -1,6 +1,6 @@
 (* Correspondence suites for C14: suite name -> arguments -> observation text.
    Events travel as  srcflag ("1" = has a source), source name, command, params... *)
-Require Import Bytes Names Ctcp WireOut.
+Require Import Bytes Names GoUpperAscii Ctcp WireOut.
 
 Definition one_byte (b : N) (s : str) : bool := match s with [c] => c =? b | _ => false end.
 
@@ -58,6 +58,61 @@ Definition show_outs (r : res (list event)) : str :=
   | Ok l => hexlist (List.map wire_event l)
   end.
 
+(* ---- ctcp.table: Set/SetBg/Clear/ClearAll, then one event ----------------- *)
+
+(* lexicographic order on byte strings (Go's sort.Strings) *)
+Fixpoint str_leb (a b : str) : bool :=
+  match a, b with
+  | [], _ => true
+  | _ :: _, [] => false
+  | x :: a', y :: b' => if x <? y then true else if y <? x then false else str_leb a' b'
+  end.
+
+Fixpoint insert_sorted (x : str) (l : list str) : list str :=
+  match l with
+  | [] => [x]
+  | y :: r => if str_leb x y then x :: l else y :: insert_sorted x r
+  end.
+
+Definition sort_strs (l : list str) : list str := fold_right insert_sorted [] l.
+
+(* the handlers the harness registers: id 8 answers like a default replier, every other
+   id writes one NOTICE to "h<id>" ("w<id>" when registered as the wildcard) *)
+Definition user_handler (id : N) (wild : bool) : handler :=
+  if id =? 56 then
+    fun c => if c_reply c then Ok [] else
+             match c_source c with
+             | None => Ok []
+             | Some n => one (send_ctcp_reply (source_id n) (c_command c) [114])
+             end
+  else
+    fun c => Ok [notice [if wild then 119 else 104; id]
+                   (c_command c ++ [124] ++ c_text c ++ [124] ++ show_bool (c_reply c))].
+
+(* op argument: kind byte ('S' Set, 'B' SetBg, 'C' Clear, 'A' ClearAll), id byte, name *)
+Definition op_of_arg (a : str) : table_op :=
+  match a with
+  | k :: id :: name =>
+      if (k =? 83) || (k =? 66) then OpSet name (user_handler id (streqb name ctcp_wildcard))
+      else if k =? 67 then OpClear name
+      else if k =? 65 then OpClearAll
+      else OpClear []
+  | _ => OpClear []
+  end.
+
+Definition digit_of (s : str) : nat :=
+  match s with [d] => N.to_nat (d - 48) | _ => 0%nat end.
+
+Definition show_table_case (args : list str) : str :=
+  match args with
+  | n :: rest =>
+      let k := digit_of n in
+      let v := drv_env [] in
+      let t := apply_ops v (default_table v) (List.map op_of_arg (firstn k rest)) in
+      hexlist (sort_strs (List.map fst t)) ++ semi ++ show_outs (ctcp_stage t (ev_of_args (skipn k rest)))
+  | _ => bs "?args"
+  end.
+
 Definition run_C14 (suite : str) (args : list str) : option str :=
   if streqb suite (bs "ctcp.decode") then Some (show_decode (decode_ctcp (ev_of_args args)))
   else if streqb suite (bs "ctcp.roundtrip") then
@@ -68,6 +123,21 @@ Definition run_C14 (suite : str) (args : list str) : option str :=
   else if streqb suite (bs "ctcp.replies") then
     Some (match args with
           | variant :: rest => show_outs (ctcp_stage (table_of_variant variant) (ev_of_args rest))
+          | _ => bs "?args"
+          end)
+  else if streqb suite (bs "ctcp.parsecmd") then
+    Some (match args with
+          | name :: _ => hex (parse_cmd name)
+          | _ => bs "?args"
+          end)
+  else if streqb suite (bs "ctcp.table") then Some (show_table_case args)
+  else if streqb suite (bs "ctcp.send") then
+    Some (match args with
+          | kind :: target :: ty :: msg :: _ =>
+              match (if one_byte 82 kind then send_ctcp_reply target ty msg else send_ctcp target ty msg) with
+              | Panic => bs "PANIC"
+              | Ok e => hex (wire_event e)
+              end
           | _ => bs "?args"
           end)
   else None.
